@@ -93,6 +93,7 @@ package mimetype
 //@   ensures TI()
 //@   ensures [C03_leaf] mirrors(result, leaf(m, in, readLimit))
 //@   ensures [C03_leaf_node] allocated(MIME(leaf(m, in, readLimit))) && isNode(leaf(m, in, readLimit))
+//@   ensures [C02_mime] result.mime == MIME(leaf(m, in, readLimit)).mime || MIME(leaf(m, in, readLimit)).mime == "text/plain" || MIME(leaf(m, in, readLimit)).mime == "text/html" || MIME(leaf(m, in, readLimit)).mime == "text/xml"
 //@   ensures [C03_parent] MIME(leaf(m, in, readLimit)).parent == nil ==> result.parent == nil
 //@   ensures [C03_parent2] MIME(leaf(m, in, readLimit)).parent != nil ==> result.parent != nil && fresh(result.parent) && mirrors(result.parent, MIME(leaf(m, in, readLimit)).parent) && result.parent.mime == MIME(leaf(m, in, readLimit)).parent.mime
 //@   decreases treeDepth - m.depth
